@@ -720,6 +720,20 @@ func (s *sim) cursorDeviationKey(o *txOp, m, r []string) string {
 	if o.cur[i].kind != cNext && o.cur[i].kind != cPrev {
 		return ""
 	}
+	// Cursor.Delete makes the pending-keys iterator remember its key for a
+	// reseek; First/Last/Seek do not forget it, so the next relative move after
+	// a repositioning continues from the stale key
+	sawAbs := false
+	for j := i - 1; j >= 0; j-- {
+		switch o.cur[j].kind {
+		case cFirst, cLast, cSeek:
+			sawAbs = true
+		case cDelete:
+			if sawAbs {
+				return "cursor-stale-reseek-after-delete"
+			}
+		}
+	}
 	// a reversal anywhere between the last absolute positioning and step i
 	// leaves the two merged iterators inconsistent
 	first := dir(o.cur[i].kind)
